@@ -31,7 +31,9 @@ extern "C" __attribute__((weak)) int __lsan_do_recoverable_leak_check();
 static std::string g_crashdesc, g_crashmsg;
 static CaseInfo* g_cur_ci = nullptr;     // for printing the partial description if the case crashes
 static bool g_print_desc_on_crash = false;
+static std::string g_sweep_dir; static uint64_t g_sweep_cur = UINT64_MAX;   // set while a sweep item runs: a crash inside it is a violation of that item
 static void dump_cur() {
+  if (g_sweep_cur != UINT64_MAX) { std::string path = g_sweep_dir + "/sweepfail." + std::to_string(g_sweep_cur); const char m[] = "crash (signal or sanitizer abort) inside the sweep item"; int fd = open(path.c_str(), O_WRONLY | O_CREAT | O_TRUNC, 0644); if (fd >= 0) { ssize_t r = write(fd, m, sizeof m - 1); (void)r; close(fd); } return; }
   if (g_print_desc_on_crash && g_cur_ci) { printf("case (crashed; description so far): %s\n", g_cur_ci->desc.c_str()); fflush(stdout); }
   if (!g_crashdesc.empty() && g_cur_ci) { std::string t = "property " + std::string(g_prop.id) + "\nfailure: " + g_crashmsg + "\ncase (crashes; description up to the crashing call): " + g_cur_ci->desc + "\n"; FILE* f = fopen(g_crashdesc.c_str(), "w"); if (f) { fwrite(t.data(), 1, t.size(), f); fclose(f); } }
   if (g_crashfile.empty()) return;
@@ -446,7 +448,7 @@ int driver_main(int argc, char** argv) {
     uint64_t n = g_prop.sweep_count();
     if (sweep_one >= 0) { CaseInfo ci; ci.want_desc = true; try { g_prop.sweep_item((uint64_t)sweep_one, ci); } catch (Fail& f) { if (!quiet) printf("sweep item %ld: FAIL %s\ncase: %s\n", sweep_one, f.msg.c_str(), ci.desc.c_str()); return 1; } if (!quiet) printf("sweep item %ld: property holds\ncase: %s\n", sweep_one, ci.desc.c_str()); return 0; }
     mkdir(rundir.c_str(), 0755); std::vector<pid_t> pids(W); fflush(stdout);
-    for (unsigned w = 0; w < W; w++) { pid_t p = fork(); if (p == 0) { for (uint64_t i = w; i < n; i += W) { CaseInfo ci; try { g_prop.sweep_item(i, ci); } catch (Fail& f) { std::string path = rundir + "/sweepfail." + std::to_string(i); write_file(path, f.msg.data(), f.msg.size()); _exit(1); } } _exit(0); } pids[w] = p; }
+    for (unsigned w = 0; w < W; w++) { pid_t p = fork(); if (p == 0) { g_sweep_dir = rundir; for (uint64_t i = w; i < n; i += W) { CaseInfo ci; g_sweep_cur = i; try { g_prop.sweep_item(i, ci); } catch (Fail& f) { std::string path = rundir + "/sweepfail." + std::to_string(i); write_file(path, f.msg.data(), f.msg.size()); _exit(1); } } _exit(0); } pids[w] = p; }
     int bad = 0; for (unsigned w = 0; w < W; w++) { int st; waitpid(pids[w], &st, 0); if (!WIFEXITED(st) || WEXITSTATUS(st) != 0) bad = WIFEXITED(st) ? WEXITSTATUS(st) : 3; }
     uint64_t best = UINT64_MAX; std::string msg;
     if (bad) { FILE* p = popen(("ls " + rundir).c_str(), "r"); char nm[512]; while (p && fgets(nm, sizeof nm, p)) { unsigned long long idx; if (sscanf(nm, "sweepfail.%llu", &idx) == 1 && idx < best) best = idx; } if (p) pclose(p); if (best != UINT64_MAX) { std::vector<uint8_t> m; read_file(rundir + "/sweepfail." + std::to_string(best), m); msg.assign(m.begin(), m.end()); } }
